@@ -52,10 +52,10 @@ def ref_exempt(host, lst):
     if ip is not None:
         for e in lst:
             if "/" in e:
-                base, p = e.split("/")
+                base, p = e.split("/", 1)
                 b = ip_int(base)
-                if b is None or not p.isdigit() or not 0 <= int(p) <= 32:
-                    continue
+                if b is None or not (p.isascii() and p.isdigit()) or not 0 <= int(p) <= 32:
+                    continue  # not an IPv4 block at all: matches nothing
                 p = int(p)
                 mask = (0xFFFFFFFF << (32 - p)) & 0xFFFFFFFF
                 if b & ~mask & 0xFFFFFFFF:
@@ -155,6 +155,16 @@ def run(res, tier, seed, shard, nshards):
                 decide(ip_str(ip), rng.random() < 0.5, [block], f"cidr/{p}", rule="cidr", prefix=p)
                 decide(ip_str(ip), False, ["other.test", block, ".a"], f"cidr-in-list/{p}", rule="cidr", prefix=p)
         res.count(f"prefix_lengths_seen")
+        # entries with a slash that are no IPv4 block (IPv6 blocks, names, out-of-range or missing prefix lengths) match nothing
+        # and hide nothing: a valid block before or after them still decides
+        for bad_entry in ("::1/128", "fe80::/10", "name/8", "1.2.3.4/33", "/8", "1.2.3/8", "10.0.0.0/", "10.0.0.0/x", "10.0.0.0/-1", "10.0.0.0/8/8", "300.1.1.1/8"):
+            hostmask = (1 << (32 - p)) - 1
+            base = rng.getrandbits(32) & ~hostmask & 0xFFFFFFFF
+            block = f"{ip_str(base)}/{p}"
+            inside = base | (rng.getrandbits(32) & hostmask)
+            for lst in ([bad_entry, block], [block, bad_entry], [bad_entry], ["other.test", bad_entry, ".a", block]):
+                decide(ip_str(inside), False, lst, f"cidr-with-invalid-entry/{p}", rule="cidr-invalid-neighbour", prefix=p)
+                res.count("lists_with_invalid_slash_entries")
 
     # (c) proxy sources: option x env vars x scheme x no_proxy source -----------
     srcs = ["opt", "http_proxy", "https_proxy", "HTTP_PROXY", "HTTPS_PROXY"]
@@ -218,7 +228,10 @@ def run(res, tier, seed, shard, nshards):
     def scen():
         replies = ["200", "200-lower", "201", "204", "301", "407", "403", "404", "500", "503", "garbage", "eof", "200-extra-headers"]
         creds = [None, ("user", "pass"), ("üser", "pässwörd"), ("user", None),
-                 ("firstname.lastname@example-corporation.test", "tok_" + "A1b2C3d4" * 9), ("u" * 28, "p" * 29), ("u" * 28, "p" * 28)]
+                 ("firstname.lastname@example-corporation.test", "tok_" + "A1b2C3d4" * 9), ("u" * 28, "p" * 29), ("u" * 28, "p" * 28),
+                 # credentials whose base64 form uses the characters + and / (and padding of every length)
+                 ("svc", "pass?"), ("a", "x>y?z~"), ("~~~", ">>>"), ("k?", "?>"), ("ab", "~"),
+                 ("".join(rng.choice("abcXYZ019?>~<|}{") for _ in range(rng.randrange(1, 9))), "".join(rng.choice("abcXYZ019?>~<|}{") for _ in range(rng.randrange(1, 12))))]
         idx = 0
         for reply in replies:
             for secure in (False, True):
